@@ -4,23 +4,24 @@ that match <regex> and <clause> to known_findings.json under finding <id>.
 usage: tools_findings.py PROP ID CLAUSE REGEX "what" """
 import json, re, sys
 if sys.argv[1] == "--rehash":
-    # record, for every listed key of PROP, the hash of the emitted code the finding is observed on (from the last run)
+    # record, for every listed key of PROP with clause 'value', the emitted code the finding is observed on (from the last run):
+    # baselines/finding_il/<PROP>.json; the check later asks the solver whether the code emitted for that input is still equivalent
+    import os
     prop = sys.argv[2]
-    h = json.load(open(f"/verif/replays/{prop}/_last_violation_hashes.json"))
+    h = json.load(open(f"/verif/replays/{prop}/_last_violation_il.json"))
     kf = json.load(open("/verif/known_findings.json"))
-    n = 0
+    out = {}
     for e in kf["findings"]:
-        if e["property"] != prop:
+        e.pop("il_sha", None)
+        if e["property"] != prop or e["clause"] != "value":
             continue
-        m = {}
         for k in e["keys"]:
-            v = h.get(k + "|" + e["clause"])
-            if v:
-                m[k] = v
-                n += 1
-        e["il_sha"] = m
+            if k in h:
+                out[k] = h[k]
+    os.makedirs("/verif/baselines/finding_il", exist_ok=True)
+    json.dump(out, open(f"/verif/baselines/finding_il/{prop}.json", "w"), indent=0)
     json.dump(kf, open("/verif/known_findings.json", "w"), indent=1)
-    print(prop, "hashes recorded:", n)
+    print(prop, "recorded IL for", len(out), "value findings")
     sys.exit(0)
 prop, fid, clause, rx, what = sys.argv[1:6]
 v = json.load(open(f"/verif/replays/{prop}/_last_new_violations.json"))
